@@ -992,6 +992,55 @@ SPECS["C11"] = {
 
 
 # ---------------------------------------------------------------------------------------------
+# Wiring of the server halves (parts defined in the server block above).
+def _add_server_half(pid, part, chk, note, assumes):
+    sp = SPECS[pid]
+    sp["parts"] = sp["parts"] + [part]
+    sp["coq_targets"] = sp["coq_targets"] + [f"Checks/{chk}.vo"]
+    sp["trusted_base"] = sp["trusted_base"] + SRV_TB
+    sp["assumptions"] = sp["assumptions"] + assumes
+    sp["level_text"] = sp["level_text"] + " " + note
+    sp["level_note"] = sp["level_note"].replace("is being added from the server model", "is part of this check (see level_text)")
+
+
+_add_server_half("C14", C14_SERVER_PART, "C14server",
+    "Server half proved: C14_server_contract - for EVERY transport, environment, configuration and op list the per-poll "
+    "call log of Requests/MaxRequests satisfies the same contract monitor (every failed write fatal), up to the first "
+    "poll that yields an error (boundary stops_after_error, refuted without it by C14_server_unrestricted_refuted); "
+    "C14_server_poll_total - no poll of the stream runs out of fuel. Tied to the real BaseChannel/MaxRequests/Requests "
+    "by the `srv` driver over the same scripted transport.",
+    [SRV_ASSUME_ATOMIC, SRV_ASSUME_STOP])
+_add_server_half("C11", C11_SERVER_PART, "C11server",
+    "Server half: C11_server_timers_track_requests proved (every transport: timers and request table hold the same ids "
+    "in every reachable state; gauges agree after every op); the full server monitor (in_flight = yielded incarnations "
+    "not yet answered, cancelled, expired or abandoned; outside the K2 class) runs on the real traces on every run and "
+    "is pinned as ServerSpec.stmt_s11_rel (proof in progress). K2 is a KNOWN FINDING (C11_server_K2_witness).",
+    [SRV_ASSUME_ATOMIC, SRV_ASSUME_B1])
+_add_server_half("C10", C10_SERVER_PART, "C10server",
+    "Server half: C10_server_base_end proved (BaseChannel ends only after end of stream with nothing tracked); the full "
+    "server monitor (the Requests stream ends only after inbound EOF, no request in flight, and a completed flush after "
+    "the last write) runs on the real traces on every run and is pinned as ServerSpec.stmt_s10 (proof in progress).",
+    [SRV_ASSUME_ATOMIC])
+_add_server_half("C09", C09_SERVER_PART, "C09server",
+    "Server half: C09_server_drop_aborts proved (dropping the channel aborts every tracked request; an aborted execute() "
+    "never polls its handler again); the full server monitor (a failing transport call ends the poll, which reports that "
+    "activity; nothing after it; no panic) runs on the real traces on every run and is pinned as ServerSpec.stmt_s09 "
+    "(proof in progress).",
+    [SRV_ASSUME_ATOMIC, SRV_ASSUME_STOP])
+_add_server_half("C18", C18_SERVER_PART, "C18server",
+    "Server half proved: C18_server_monitor - for EVERY transport the request handed to the application carries the id, "
+    "deadline, body, trace id and sampling decision of the request read (the server's own span id is a fresh draw). "
+    "Tied to the real BaseChannel by the `srv` driver, which decodes trace id and sampling decision of the context the "
+    "real InFlightRequest hands out.",
+    [SRV_ASSUME_ATOMIC])
+SPECS["C18"]["level_note"] = SPECS["C18"]["level_note"].replace(
+    "Partial: the server half (the handler observes the same trace id and sampling with a fresh span "
+    "id) and multi-hop chains are covered by the server model's Yield observations and by the chain driver, not by "
+    "this theorem;", "Partial: multi-hop chains follow by composing the client and the server theorem hop by hop (not a "
+    "separate theorem yet);")
+
+
+# ---------------------------------------------------------------------------------------------
 # Translator side condition shared by C16 and C09: the panic-site inventory of the anchored
 # sources must equal the pinned, justified map tools/panic_sites.json.
 def panic_inventory():
